@@ -312,7 +312,18 @@ pub fn main_seq(dispatch: Dispatch) {
     main_seq_inner(dispatch, args)
 }
 
+/// What a user sees for one fixed parse error: rendered before the first and after the last parse of a process.  Parsing
+/// (with any tracer) must not change it - nothing a parse does may outlive the parse.
+pub fn probe_rendering() -> String {
+    let e = ParseError {
+        position: 4,
+        specifics: peginator::ParseErrorSpecifics::ExpectedEoi,
+    };
+    format!("{}", peginator::PrettyParseError::from_parse_error(&e, "ab\ncd ef\n", Some("probe.ebnf")))
+}
+
 fn main_seq_inner(dispatch: Dispatch, args: Vec<String>) {
+    let rendering_before = probe_rendering();
     let cases = read_cases(&args[1]);
     let skip: usize = args.get(3).map(|s| s.parse().unwrap()).unwrap_or(0);
     let mut out = std::fs::OpenOptions::new()
@@ -353,6 +364,12 @@ fn main_seq_inner(dispatch: Dispatch, args: Vec<String>) {
             let log = take_log();
             out.write_all(log.as_bytes()).unwrap();
         }
+    }
+    let rendering_after = probe_rendering();
+    if rendering_after == rendering_before {
+        writeln!(out, "Y same").unwrap();
+    } else {
+        writeln!(out, "Y differs {} {}", hex(&rendering_before), hex(&rendering_after)).unwrap();
     }
     writeln!(out, "DONE").unwrap();
 }
